@@ -71,3 +71,77 @@ pub fn stat(req: &Req) -> R<String> {
 		_ => Err(Bad),
 	}
 }
+
+/// `statd dist=<norm|exp|expl|normal|lognormal> w=<32|64> [a=<f64 bits>] [b=<f64 bits>] samples=<N> seed=<s> [gen=..] edges=<f64 bits,...>`
+/// answers the number of samples in each of the `edges.len()+1` bins `(-inf,e0), [e0,e1), ..., [e_last, +inf)` and, last, the NaN count.
+/// f32 samples are widened (exactly) before binning.
+fn rund<G: Rng>(mut r: Random<G>, dist: &str, w: u64, a: f64, b: f64, samples: u64, edges: &[f64]) -> R<String> {
+	use urandom::distr::*;
+	let mut counts = vec![0u64; edges.len() + 2];
+	let nan_slot = edges.len() + 1;
+	macro_rules! go {
+		($sampler:expr) => {{
+			for _ in 0..samples {
+				let x: f64 = $sampler;
+				if x.is_nan() {
+					counts[nan_slot] += 1;
+				}
+				else {
+					counts[edges.partition_point(|e| *e <= x)] += 1;
+				}
+			}
+		}};
+	}
+	match (dist, w) {
+		("norm", 64) => go!(r.sample::<f64, _>(&StandardNormal)),
+		("norm", 32) => go!(r.sample::<f32, _>(&StandardNormal) as f64),
+		("exp", 64) => go!(r.sample::<f64, _>(&Exp1)),
+		("exp", 32) => go!(r.sample::<f32, _>(&Exp1) as f64),
+		("expl", 64) => {
+			let d = Exp::<f64>::new(a);
+			go!(r.sample::<f64, _>(&d))
+		}
+		("expl", 32) => {
+			let d = Exp::<f32>::new(a as f32);
+			go!(r.sample::<f32, _>(&d) as f64)
+		}
+		("normal", 64) => {
+			let d = Normal::<f64>::new(a, b);
+			go!(r.sample::<f64, _>(&d))
+		}
+		("normal", 32) => {
+			let d = Normal::<f32>::new(a as f32, b as f32);
+			go!(r.sample::<f32, _>(&d) as f64)
+		}
+		("lognormal", 64) => {
+			let d = LogNormal::<f64>::new(a, b);
+			go!(r.sample::<f64, _>(&d))
+		}
+		("lognormal", 32) => {
+			let d = LogNormal::<f32>::new(a as f32, b as f32);
+			go!(r.sample::<f32, _>(&d) as f64)
+		}
+		_ => return Err(Bad),
+	}
+	Ok(join(&counts, ","))
+}
+
+pub fn statd(req: &Req) -> R<String> {
+	let dist = req.get("dist")?;
+	let w = req.u64("w")?;
+	let samples = req.u64("samples")?;
+	let seed = req.u64("seed")?;
+	let a = f64::from_bits(req.opt_u64("a")?.unwrap_or(0));
+	let b = f64::from_bits(req.opt_u64("b")?.unwrap_or(0));
+	let edges: Vec<f64> = req.list_u64("edges")?.into_iter().map(f64::from_bits).collect();
+	if samples > 2_000_000_000 || edges.windows(2).any(|p| !(p[0] < p[1])) {
+		return Err(Bad);
+	}
+	match req.opt("gen").unwrap_or("xoshiro") {
+		"xoshiro" => rund(Xoshiro256::from_seed(seed), dist, w, a, b, samples, &edges),
+		"splitmix" => rund(SplitMix64::from_seed(seed), dist, w, a, b, samples, &edges),
+		"wyrand" => rund(Wyrand::from_seed(seed), dist, w, a, b, samples, &edges),
+		"chacha8" => rund(ChaCha8::from_seed(seed), dist, w, a, b, samples, &edges),
+		_ => Err(Bad),
+	}
+}
